@@ -504,7 +504,16 @@ pub fn run(ctx: &Ctx) {
         mutations(ctx, &mut rng, &nd);
         let off = *rng.pick(&[i32::MIN, -3600, 0, 3600, i32::MAX]);
         let dt = ElixirDateTime::with_timezone(year, *rng.pick(u8s), *rng.pick(u8s), *rng.pick(u8s), *rng.pick(u8s), *rng.pick(u8s), us.min(999_999), *rng.pick(&[0u8, 3, 6]), &text(&mut rng), &text(&mut rng), off, *rng.pick(&[0, 3600, i32::MIN]));
-        roundtrip(ctx, &dt, if off == i32::MIN || off == i32::MAX { "offset-extreme" } else { "offset" });
+        // every public field is settable: values the constructors would have clamped included
+        let mut dt = dt;
+        dt.microsecond_precision = *rng.pick(&[0u8, 1, 3, 6, 6, 7, 9, 255]);
+        dt.microsecond_value = *rng.pick(&[0u32, 1, 999_999, 1_000_000, u32::MAX]).min(&us.max(1));
+        if rng.chance(1, 4) {
+            dt.month = *rng.pick(u8s);
+            dt.second = *rng.pick(u8s);
+        }
+        let dtc = if dt.microsecond_precision > 6 { "precision>6" } else if off == i32::MIN || off == i32::MAX { "offset-extreme" } else { "offset" };
+        roundtrip(ctx, &dt, dtc);
         mutations(ctx, &mut rng, &dt);
         roundtrip(ctx, &ArgumentError::new(text(&mut rng)), "message");
         roundtrip(ctx, &RuntimeError::new(text(&mut rng)), "message");
